@@ -318,6 +318,11 @@ func ParsedSources() []string { return nil }
 
 // Or / And / Not evaluate both operands (no short-circuit): under the engine
 // they build one Boolean term instead of forking the path.
+// MapOrderBaseline: under the engine, while switched on every map range runs in
+// insertion order without being a choice point (the reference run of a
+// determinism harness). Natively a no-op: Go's iteration order is random anyway.
+func MapOrderBaseline(on bool) {}
+
 func Or(a, b bool) bool  { return a || b }
 func And(a, b bool) bool { return a && b }
 func Not(a bool) bool    { return !a }
